@@ -789,10 +789,8 @@ func continueToMatchingQuote(l *lexer, typ tokenType, captureQuotes bool) rune {
 		if r == quote && !escaping {
 			break
 		}
-		escaping = false
-		if r == '\\' {
-			escaping = true
-		}
+		// a backslash escapes the next character only: not when it is escaped itself, and never in a raw (backtick) string
+		escaping = r == '\\' && !escaping && quote != '`'
 	}
 	if captureQuotes {
 		l.emit(typ)
